@@ -15,7 +15,7 @@ from . import build, props
 VERIF = build.VERIF
 EVIDENCE = os.path.join(VERIF, "evidence")
 REPLAYS = os.path.join(EVIDENCE, "replays")
-FINDINGS = os.path.join(VERIF, "KNOWN_FINDINGS.txt")
+FINDINGS = os.environ.get("VERIF_FINDINGS", os.path.join(VERIF, "KNOWN_FINDINGS.txt"))  # the override exists for testing the mechanism only
 
 
 def log(*a):
@@ -601,6 +601,10 @@ def _run_check(pid, p, tier, seed, jobs, findings, scratch, t0, scale=1.0):
                 log("BROKEN: " + b)
             print("BROKEN property=%s reason=%s" % (pid, (broken + notes)[0].splitlines()[0][:200]))
             status = 2
+        elif distinct < min_nt and known_hits:
+            # every shard that meets a listed finding stops there (rapidcheck / libFuzzer stop at the first failure);
+            # the run is reported as what it is - a run that reached the known finding - not as broken
+            log("note: %d distinct non-trivial cases only (minimum %d): shards stopped at the listed finding(s)" % (distinct, min_nt))
         elif distinct < min_nt:
             log("BROKEN: only %d distinct non-trivial cases (minimum %d): generator does not reach the interesting region" % (distinct, min_nt))
             print("BROKEN property=%s reason=too-few-nontrivial (%d<%d)" % (pid, distinct, min_nt))
